@@ -541,25 +541,46 @@ func stripHiddenRecipients(activity Activity) {
 // removal: a member of a value whose type has no such property (a Link), whose
 // type is not known, or that sits below an 'object' member its type does not
 // define is kept verbatim by the serializer and never seen by the typed code.
+//
+// A value read under a JSON-LD context that gives the vocabulary an alias has
+// its members written with that alias ('as:bto'), and such a value may sit
+// inside one that has none: members are recognized by their name without the
+// prefix.
 func stripHiddenRecipientsSerialized(m map[string]interface{}, deep bool) {
-	delete(m, "bto")
-	delete(m, "bcc")
+	var strip func(n map[string]interface{}, descend, recur bool)
 	var under func(v interface{}, recur bool)
+	strip = func(n map[string]interface{}, descend, recur bool) {
+		for k, v := range n {
+			switch unprefixedMemberName(k) {
+			case "bto", "bcc":
+				delete(n, k)
+			case "object":
+				if descend {
+					under(v, recur)
+				}
+			}
+		}
+	}
 	under = func(v interface{}, recur bool) {
 		switch n := v.(type) {
 		case map[string]interface{}:
-			delete(n, "bto")
-			delete(n, "bcc")
-			if recur {
-				under(n["object"], true)
-			}
+			strip(n, recur, recur)
 		case []interface{}:
 			for _, e := range n {
 				under(e, recur)
 			}
 		}
 	}
-	under(m["object"], deep)
+	strip(m, true, deep)
+}
+
+// unprefixedMemberName returns a JSON member name without the vocabulary
+// alias in front of it, if it has one ('as:bto' is 'bto'; an IRI is itself).
+func unprefixedMemberName(k string) string {
+	if i := strings.LastIndex(k, ":"); i >= 0 && !strings.Contains(k[:i], "/") {
+		return k[i+1:]
+	}
+	return k
 }
 
 // mustHaveActivityOriginMatchObjects ensures that the Host in the activity id
